@@ -5,6 +5,13 @@ CONSTANTS
   Thresholds <- ThrTree
   Batches = {0, 1, 2, 3}
   RecSizes = {1}
+  RecShapes <- ShapesMC
+  Sizes <- SizesNone
+  LargeSizes <- Large
+  MaxRelogs = 1
+  ShareOnCopy = TRUE
+  CloneBeforeAdd = TRUE
+  RebindOnLarge = FALSE
   MaxH = 6
   MaxLogs = 0
   MaxGroups = 0
